@@ -10,8 +10,9 @@ see it).  Everything the plan interacts with is modelled concretely and in the c
 * `exec_stmt`: `make`/assignment/index assignment, `if`, `jasi` (re-evaluating the condition,
   `comot` leaves, `next`/normal continue, `return` propagates), nested blocks, definitions (no-op),
   `return`, `comot`, `next`, expression statements;
-* `eval_expr`: variables are found by `LocalId` in the whole dynamic stack (`lookup_local`),
-  `and`/`or` short-circuit, user calls are found by `FunctionId` in the dynamic stack of function
+* `eval_expr`: a variable is found by `LocalId` in the most recent instance of its declaring scope
+  only (`local_scope_index` / `lookup_local`, the D-04 fix: every runtime scope is tagged with the
+  resolver scope it instantiates; a miss is `Undefined variable`), `and`/`or` short-circuit, user calls are found by `FunctionId` in the dynamic stack of function
   scopes (`lookup_func_by_id`), arguments left to right, parameters in their own scope, the body
   as a block; `shout` appends to the output; mutating methods and index assignment write the root
   variable of their receiver.
@@ -41,13 +42,20 @@ structure Slot (V : Type) where
   id : Nat
   val : V
 
+/-- One entry of `Runtime::env` with its entry of `Runtime::scope_ids`. -/
+structure Scope (V : Type) where
+  /-- the resolver scope this runtime scope is an instance of (`None` for the root scope and for the
+  parameter scope of a function without parameters) -/
+  tag : Option Nat
+  slots : List (Slot V)
+
 structure FnDef where
   id : Nat
   params : List Param
   body : List Stmt
 
 structure St (V : Type) where
-  env : List (List (Slot V))
+  env : List (Scope V)
   fns : List (List FnDef)
   out : List V
   /-- ghost: statement ids executed, newest first -/
@@ -92,6 +100,11 @@ structure Prims (V : Type) where
   mutMember : Bytes → V → List V → List V → Except Err (V × V)
   /-- index assignment: root value, index path, new element ↦ new root value -/
   setPath : V → List V → V → Except Err V
+  /-- `facts.locals[l].declaring_scope` (what `local_scope_index` consults) -/
+  dscope : Nat → Option Nat
+  /-- `facts.stmt_effects[i].scope`; the scope of a block (`scope_of_block`) is the scope of its first
+  statement — an empty block declares nothing, its tag is never looked for -/
+  sscope : Nat → Option Nat
 
 abbrev R (V α : Type) := Except Err α × St V
 
@@ -101,27 +114,53 @@ def findSlot {V : Type} (id : Nat) : List (Slot V) → Option V
   | [] => none
   | s :: ss => if s.id == id then some s.val else findSlot id ss
 
-def lookupEnv {V : Type} (id : Nat) : List (List (Slot V)) → Option V
+/-- `local_scope_index`: the most recent scope that is an instance of resolver scope `tg`. -/
+def findScope {V : Type} (tg : Nat) : List (Scope V) → Option (Scope V)
   | [] => none
-  | sc :: scs => match findSlot id sc with
-    | some v => some v
-    | none => lookupEnv id scs
+  | sc :: scs => if sc.tag == some tg then some sc else findScope tg scs
+
+/-- `lookup_local_env`: only the most recent instance of the declaring scope is searched. -/
+def lookupEnv {V : Type} (ds : Nat → Option Nat) (id : Nat) (env : List (Scope V)) : Option V :=
+  match ds id with
+  | none => none
+  | some tg =>
+      match findScope tg env with
+      | none => none
+      | some sc => findSlot id sc.slots
 
 def setSlot {V : Type} (id : Nat) (v : V) : List (Slot V) → Option (List (Slot V))
   | [] => none
   | s :: ss => if s.id == id then some ({ s with val := v } :: ss) else (setSlot id v ss).map (s :: ·)
 
-def assignEnv {V : Type} (id : Nat) (v : V) : List (List (Slot V)) → Option (List (List (Slot V)))
+/-- Store into the most recent instance of scope `tg`; `none` when there is no such instance or it
+has no slot for `id` (the variable's `make` has not run in it). -/
+def setIn {V : Type} (tg id : Nat) (v : V) : List (Scope V) → Option (List (Scope V))
   | [] => none
-  | sc :: scs => match setSlot id v sc with
-    | some sc' => some (sc' :: scs)
-    | none => (assignEnv id v scs).map (sc :: ·)
+  | sc :: scs =>
+      if sc.tag == some tg then (setSlot id v sc.slots).map (fun s => { sc with slots := s } :: scs)
+      else (setIn tg id v scs).map (sc :: ·)
+
+/-- `assign_local` / `lookup_local_mut`. -/
+def assignEnv {V : Type} (ds : Nat → Option Nat) (id : Nat) (v : V) (env : List (Scope V)) : Option (List (Scope V)) :=
+  match ds id with
+  | none => none
+  | some tg => setIn tg id v env
 
 /-- `define`: a new slot in the innermost scope (there always is one: every block pushes its own;
 with no scope at all the store is dropped). -/
-def defineEnv {V : Type} (id : Nat) (v : V) : List (List (Slot V)) → List (List (Slot V))
+def defineEnv {V : Type} (id : Nat) (v : V) : List (Scope V) → List (Scope V)
   | [] => []
-  | sc :: scs => (⟨id, v⟩ :: sc) :: scs
+  | sc :: scs => { sc with slots := ⟨id, v⟩ :: sc.slots } :: scs
+
+/-- `scope_of_block`. -/
+def blockTag (ss : Nat → Option Nat) : List Stmt → Option Nat
+  | [] => none
+  | s :: _ => s.sid.bind ss
+
+/-- Tag of a parameter scope: the declaring scope of the first parameter. -/
+def paramTag (ds : Nat → Option Nat) : List Param → Option Nat
+  | [] => none
+  | p :: _ => p.bind.bind ds
 
 def findFn (id : Nat) : List (List FnDef) → Option FnDef
   | [] => none
@@ -192,10 +231,10 @@ def interpIds : Expr → List (Option Nat)
   | .str (.interp segs) _ => segIds segs
   | _ => []
 
-def readAll {V : Type} (env : List (List (Slot V))) : List (Option Nat) → Option (List V)
+def readAll {V : Type} (ds : Nat → Option Nat) (env : List (Scope V)) : List (Option Nat) → Option (List V)
   | [] => some []
   | none :: _ => none
-  | some id :: ids => match lookupEnv id env, readAll env ids with
+  | some id :: ids => match lookupEnv ds id env, readAll ds env ids with
     | some v, some vs => some (v :: vs)
     | _, _ => none
 
@@ -216,7 +255,7 @@ variable {V : Type}
 def finishNode (P : Prims V) (e : Expr) : R V (List V) → R V V
   | (.error er, st1) => (.error er, st1)
   | (.ok vs, st1) =>
-      match readAll st1.env (interpIds e) with
+      match readAll P.dscope st1.env (interpIds e) with
       | none => (.error .unbound, st1)
       | some rs => (P.node e (vs ++ rs), st1)
 
@@ -224,7 +263,7 @@ mutual
   def evalExpr (P : Prims V) (cfg : Cfg) : Nat → Expr → St V → R V V
     | 0, _, st => (.error .fuel, st)
     | _ + 1, .var _ b _, st =>
-        match b.bind (fun id => lookupEnv id st.env) with
+        match b.bind (fun id => lookupEnv P.dscope id st.env) with
         | some v => (.ok v, st)
         | none => (.error .unbound, st)
     | n + 1, .binary .and l r _, st =>
@@ -267,7 +306,7 @@ mutual
                       match bindParams fd.params vs with
                       | none => (.error .panic, st1)
                       | some slots =>
-                          let st2 := { st1 with env := slots :: st1.env, fns := [] :: st1.fns }
+                          let st2 := { st1 with env := ⟨paramTag P.dscope fd.params, slots⟩ :: st1.env, fns := [] :: st1.fns }
                           match execBlock P cfg n fd.body st2 with
                           | (.error e, st3) => (.error e, { st3 with env := st3.env.drop 1, fns := st3.fns.drop 1 })
                           | (.ok fl, st3) =>
@@ -287,13 +326,13 @@ mutual
                   match evalList P cfg n path st1 with
                   | (.error e, st2) => (.error e, st2)
                   | (.ok pvs, st2) =>
-                      match lookupEnv root st2.env with
+                      match lookupEnv P.dscope root st2.env with
                       | none => (.error .unbound, st2)
                       | some old =>
                           match P.mutMember field old pvs vs with
                           | .error e => (.error e, st2)
                           | .ok (new, res) =>
-                              match assignEnv root new st2.env with
+                              match assignEnv P.dscope root new st2.env with
                               | none => (.error .panic, st2)
                               | some env' => (.ok res, { st2 with env := env' })
         else
@@ -317,7 +356,7 @@ mutual
   def execBlock (P : Prims V) (cfg : Cfg) : Nat → List Stmt → St V → R V (Flow V)
     | 0, _, st => (.error .fuel, st)
     | n + 1, ss, st =>
-        let st1 := { st with env := [] :: st.env, fns := hoist ss :: st.fns }
+        let st1 := { st with env := ⟨blockTag P.sscope ss, []⟩ :: st.env, fns := hoist ss :: st.fns }
         match execStmts P cfg n ss st1 with
         | (r, st2) => (r, { st2 with env := st2.env.drop 1, fns := st2.fns.drop 1 })
 
@@ -348,7 +387,7 @@ mutual
         match evalExpr P cfg n e st with
         | (.error er, st1) => (.error er, st1)
         | (.ok v, st1) =>
-            match b.bind (fun id => assignEnv id v st1.env) with
+            match b.bind (fun id => assignEnv P.dscope id v st1.env) with
             | some env' => (.ok .normal, { st1 with env := env' })
             | none => (.error .unbound, st1)
     | n + 1, .assignIndex t e _ _, st =>
@@ -361,13 +400,13 @@ mutual
                 match evalList P cfg n path st1 with
                 | (.error er, st2) => (.error er, st2)
                 | (.ok pvs, st2) =>
-                    match lookupEnv root st2.env with
+                    match lookupEnv P.dscope root st2.env with
                     | none => (.error .unbound, st2)
                     | some old =>
                         match P.setPath old pvs v with
                         | .error er => (.error er, st2)
                         | .ok new =>
-                            match assignEnv root new st2.env with
+                            match assignEnv P.dscope root new st2.env with
                             | none => (.error .panic, st2)
                             | some env' => (.ok .normal, { st2 with env := env' })
     | n + 1, .ifS c (.mk t _) els _ _, st =>
@@ -414,7 +453,7 @@ mutual
                 | (.ok _, st2) => execLoop P cfg n c b st2
 end
 
-def St.init (V : Type) : St V := { env := [[]], fns := [[]], out := [], trace := [], looked := [] }
+def St.init (V : Type) : St V := { env := [⟨none, []⟩], fns := [[]], out := [], trace := [], looked := [] }
 
 /-- `Runtime::run_with_analysis`: the outer scope of `run_inner`, then the root block. -/
 def run (P : Prims V) (plan : Option Plan) (fuel : Nat) (root : Block) : R V (Flow V) :=
